@@ -820,7 +820,7 @@ Lemma fa_flat_slot : forall a i, wf_fixarr a = true -> i < fa_len a ->
    nth (2 * (fa_off a + i) + 1) (fa_vals a) None].
 Proof.
   intros a i Hwf Hi. pose proof (wf_fixarr_vals a Hwf) as Hv.
-  rewrite (slice_pair _ _ _ None) by (rewrite fa_flat_length by exact Hwf; lia).
+  rewrite (slice_pair num _ _ None) by (rewrite fa_flat_length by exact Hwf; lia).
   unfold fa_flat_values. destruct (Nat.eqb_spec (fa_len a) 0) as [E|E]; [lia|].
   rewrite !nth_slice by lia.
   f_equal; [|f_equal]; f_equal; lia.
@@ -872,4 +872,28 @@ Lemma fa_total_tight : forall a, wf_fixarr a = true ->
 Proof.
   intros a Hwf. unfold fa_total_bounds.
   rewrite fa_valid_flat_coords by exact Hwf. apply kernel_tight.
+Qed.
+
+(* ================================================================== *)
+(** * 11. why [even_outer] is needed for containment                    *)
+(* ================================================================== *)
+
+(* One nesting level, offsets [0;1;3] over three values: element 1 is read as
+   the pair (100, 0) but the flat values pair up as (5, 100), so the row's
+   xmax (100) exceeds the total xmax (5).  The array is well-formed and has no
+   missing element. *)
+Definition odd_offsets_witness : listarr :=
+  {| la_off := 0; la_len := 2; la_valid := None;
+     la_offs := [[0; 1; 3]];
+     la_vals := [Some 5%Z; Some 100%Z; Some 0%Z] |}.
+
+Lemma la_rows_in_total_needs_even :
+  exists a i v t,
+    wf_listarr a = true /\ nulls_empty a = true /\ even_outer a = false /\
+    i < la_len a /\ isna_at (la_valid a) (la_off a) i = false /\
+    snd (fst (nth i (la_bounds a) nanbox)) = Some v /\
+    snd (fst (la_total_bounds a)) = Some t /\ (t < v)%Z.
+Proof.
+  exists odd_offsets_witness, 1, 100%Z, 5%Z.
+  repeat split; vm_compute; reflexivity.
 Qed.
